@@ -132,6 +132,12 @@ def set_leaf(c, k, rng, system):
         j = rng.randrange(3)
         kv[j]['v'] = rng.choice(['X1', 'nm', 'f', 't', 'base', 'ga', 'o', 'adn'])
         kv[j]['x'] = kv[j]['v'].startswith('X')
+        if rng.random() < 0.2:
+            # another attribute name in one slot (features with different attribute lists never match), often next to a variable
+            i = rng.randrange(3)
+            kv[i]['k'] = rng.choice([k for k in ('case', 'mod', 'form', 'fin', 'kind') if k not in [e['k'] for e in kv]])
+            if rng.random() < 0.6:
+                kv[i]['v'], kv[i]['x'] = 'X%d' % (i + 1), True
         return gen.atom(n['b'], {'t': 'T', 'kv': kv})
     return rec(c)
 
